@@ -448,6 +448,66 @@ impl<'a> Machine<'a> {
             self.env.pop();
             return Ok(V::Bool(r));
         }
+        if name == "format" {
+            // format!("..{name}..{}..", args): strings, characters and integers are concatenated as they display
+            let args: Vec<syn::Expr> = m.parse_body_with(syn::punctuated::Punctuated::<syn::Expr, syn::Token![,]>::parse_terminated).map_err(|e| e.to_string())?.into_iter().collect();
+            let fmt = match args.first() {
+                Some(syn::Expr::Lit(l)) => match &l.lit {
+                    syn::Lit::Str(s) => s.value(),
+                    _ => return Err("format! format is not a string literal".into()),
+                },
+                _ => return Err("format! format is not a string literal".into()),
+            };
+            let mut positional = vec![];
+            for a in &args[1..] {
+                positional.push(self.eval(a)?);
+            }
+            let show = |v: &V| -> Result<String, String> {
+                Ok(match v {
+                    V::Str(s) => s.clone(),
+                    V::Int(i) => i.to_string(),
+                    V::Char(c) => char::from_u32(*c).map(|c| c.to_string()).unwrap_or_default(),
+                    other => return Err(format!("format! of {:?}", other)),
+                })
+            };
+            let mut out = String::new();
+            let mut next_pos = 0;
+            let chars: Vec<char> = fmt.chars().collect();
+            let mut i = 0;
+            while i < chars.len() {
+                match chars[i] {
+                    '{' if chars.get(i + 1) == Some(&'{') => {
+                        out.push('{');
+                        i += 2;
+                    }
+                    '}' if chars.get(i + 1) == Some(&'}') => {
+                        out.push('}');
+                        i += 2;
+                    }
+                    '{' => {
+                        let close = chars[i..].iter().position(|c| *c == '}').ok_or("format! unbalanced")? + i;
+                        let inner: String = chars[i + 1..close].iter().collect();
+                        if inner.contains(':') {
+                            return Err("format! with a format spec".into());
+                        }
+                        let v = if inner.is_empty() {
+                            let v = positional.get(next_pos).cloned().ok_or("format! argument")?;
+                            next_pos += 1;
+                            v
+                        } else {
+                            self.get(&inner).ok_or_else(|| format!("format! names unbound `{}`", inner))?
+                        };
+                        out.push_str(&show(&v)?);
+                        i = close + 1;
+                    }
+                    c => {
+                        out.push(c);
+                        i += 1;
+                    }
+                }
+            }
+            return Ok(V::Str(out));
+        }
         Err(format!("macro {}!", name))
     }
 
@@ -874,6 +934,8 @@ impl<'a> Machine<'a> {
                         (V::Opt(o), "is_none") => return Ok(V::Bool(o.is_none())),
                         (V::List(v), "next") => return Ok(V::Opt(v.first().cloned().map(Box::new))),
                         (V::List(v), "len") | (V::List(v), "count") => return Ok(V::Int(v.len() as i128)),
+                        (V::Str(x), "len") => return Ok(V::Int(x.len() as i128)),
+                        (V::Str(x), "is_empty") => return Ok(V::Bool(x.is_empty())),
                         (V::List(v), "is_empty") => return Ok(V::Bool(v.is_empty())),
                         (V::List(v), "last") => return Ok(V::Opt(v.last().cloned().map(Box::new))),
                         (V::List(v), "first") => return Ok(V::Opt(v.first().cloned().map(Box::new))),
@@ -912,6 +974,7 @@ impl<'a> Machine<'a> {
                     args.push(self.eval(a)?);
                 }
                 match (&recv, m.as_str(), args.first()) {
+                    (V::Str(x), "repeat", Some(V::Int(n))) if *n >= 0 && *n < 10_000 => return Ok(V::Str(x.repeat(*n as usize))),
                     (V::Char(c), "to_digit", Some(V::Int(radix))) => {
                         let d = char::from_u32(*c).and_then(|ch| ch.to_digit(*radix as u32));
                         return Ok(V::Opt(d.map(|d| Box::new(V::Int(d as i128)))));
